@@ -359,6 +359,53 @@ theorem C14_intern_keeps (t : Tab) (next : Nat) (v : List Nat) (h : ValuesDistin
     simp only [lookupVal, Option.map_eq_none_iff, List.find?_eq_none] at hn
     exact hn a ha (by simp only [beq_iff_eq]; exact heq.symm)
 
+/-! ### ids handed out by `register_val` are injective -/
+
+/-- ids are pairwise different and below the counter -/
+def IdsFresh (t : Tab) (next : Nat) : Prop := t.Pairwise (fun a b => a.1 ≠ b.1) ∧ ∀ e ∈ t, e.1 < next
+
+theorem C14_intern_ids (t : Tab) (next : Nat) (v : List Nat) (h : IdsFresh t next) :
+    IdsFresh (intern t next v).1 (intern t next v).2.1 := by
+  unfold intern
+  split
+  · exact h
+  · refine ⟨?_, ?_⟩
+    · rw [List.pairwise_cons]
+      exact ⟨fun a ha => by have := h.2 a ha; simp only; omega, h.1⟩
+    · intro e he
+      simp only [List.mem_cons] at he
+      rcases he with he | he
+      · subst he; simp only; omega
+      · have := h.2 e he; simp only; omega
+
+theorem lookupVal_mem (t : Tab) (v : List Nat) (i : Nat) (h : lookupVal t v = some i) : (i, v) ∈ t := by
+  unfold lookupVal at h
+  simp only [Option.map_eq_some_iff] at h
+  obtain ⟨e, he, hi⟩ := h
+  have hm := List.mem_of_find?_eq_some he
+  have hp := List.find?_some he
+  simp only [beq_iff_eq] at hp
+  rw [← hi, ← hp]
+  exact hm
+
+/-- two different containers never share an id -/
+theorem C14_intern_injective (t : Tab) (next : Nat) (h : IdsFresh t next) (v w : List Nat) (i : Nat)
+    (hv : lookupVal t v = some i) (hw : lookupVal t w = some i) : v = w := by
+  have mv := lookupVal_mem t v i hv
+  have mw := lookupVal_mem t w i hw
+  have h1 := h.1
+  clear hv hw h
+  induction t with
+  | nil => cases mv
+  | cons x l ih =>
+    rw [List.pairwise_cons] at h1
+    simp only [List.mem_cons] at mv mw
+    rcases mv with mv | mv <;> rcases mw with mw | mw
+    · rw [← mv] at mw; exact (Prod.mk.inj mw).2.symm
+    · exact absurd (by rw [← mv]) (h1.1 (i, w) mw)
+    · exact absurd (by rw [← mw]) (h1.1 (i, v) mv)
+    · exact ih mv mw h1.2
+
 /-- non-vacuity: a pass that merges two containers, and one that merges nothing -/
 example : rebuildPass (fun x => if x = 2 then 1 else x) [(10, [1, 3]), (11, [2, 3]), (12, [3])]
     = ([(10, [1, 3]), (12, [3])], [(11, 10)]) := by decide
